@@ -49,6 +49,29 @@ func (reg *Registry[E]) ReadFrom(r io.Reader) (int64, error) {
 	return n, nil
 }
 
+// WriteTo writes the registry in the form ReadFrom reads: the number of entries, then for every entry (in id
+// order) its key, a presence flag and its data as nameless NBT.
+func (reg *Registry[E]) WriteTo(w io.Writer) (int64, error) {
+	keys := make([]string, len(reg.values))
+	for key, id := range reg.keys {
+		if id >= 0 && int(id) < len(keys) {
+			keys[id] = key
+		}
+	}
+	n, err := pk.VarInt(len(reg.values)).WriteTo(w)
+	if err != nil {
+		return n, err
+	}
+	for i := range reg.values {
+		nn, err := pk.Tuple{pk.Identifier(keys[i]), pk.Boolean(true), pk.NBT(&reg.values[i])}.WriteTo(w)
+		n += nn
+		if err != nil {
+			return n, err
+		}
+	}
+	return n, nil
+}
+
 func (reg *Registry[E]) ReadTagsFrom(r io.Reader) (int64, error) {
 	var count pk.VarInt
 	n, err := count.ReadFrom(r)
